@@ -25,7 +25,8 @@ RULE = ("cases = (table text, flavor, setup types): tables of 1-8 items (command
         "trailing semicolons; legacy tables (Group:/Flavor=/Common:/End: and runs of Flavor= lines); a malformed stream "
         "(lines dropped, duplicated, inserted; wrong arity; operators outside the property's grammar); every condition "
         "also on its own through VersionParser; exhaustive small enumerations (all chain shapes of <= 3 branches with "
-        "empty / non-empty branches and else; all conditions of depth <= 1, thorough: <= 2, over 2 flavors x 2 types); each "
+        "empty / non-empty branches and else; all conditions of depth <= 1, thorough: <= 2, over 2 flavors x 2 types; all "
+        "argument texts of length <= 5, thorough: <= 7, over the alphabet {a, quote, backslash, comma, blank, closing parenthesis}); each "
         "table is evaluated for every flavor it mentions plus an unmentioned one, with TYPE absent / one / two types; "
         "chains of 6-9 branches (3 %), declareOptions written as options (k=v, k = v, quoted) whose pairs the generator "
         "knows; a lone quoted argument with escaped quotes / commas / runs of blanks, padded or not, escaped quotes next to "
@@ -898,7 +899,7 @@ MAX_SHRINKS = 6
 
 
 def evaluate(ctx, cases):
-    nw = 6
+    nw = 4
     impl = parallel_map(run_impl_chunk, [cases[i::nw] for i in range(nw)], workers=nw)
     impls = [None] * len(cases)
     for k, ch in enumerate(impl):
@@ -914,7 +915,7 @@ def evaluate(ctx, cases):
         mo = model_out(c, answers[s:s + n])
         inp = public(c)
         feats = set(c["features"])
-        nontrivial = bool(feats & {"chain", "legacy", "quoted_arg", "enumerated_conds"})
+        nontrivial = bool(feats & {"chain", "legacy", "quoted_arg", "enumerated_conds", "enumerated_args"})
         ctx.hist("kind=" + c["kind"])
         for f in c["features"]:
             ctx.hist("feature=" + f)
@@ -1018,7 +1019,7 @@ def enum_chain_cases():
     return out
 
 
-def enum_cond_cases(max_depth):
+def enum_cond_cases(max_depth, from_level=0):
     """Exhaustive enumeration of conditions up to a depth over 2 flavors and 2 types (atoms: FLAVOR/TYPE x ==/!= x
     2 words), minimal parentheses, evaluated for 3 flavors x {no type, one, two}."""
     atoms = [["atom", v, n, w] for v, ws in (("FLAVOR", ["Linux", "Darwin"]), ("TYPE", ["build", "exact"])) for n in (False, True) for w in ws]
@@ -1036,7 +1037,7 @@ def enum_cond_cases(max_depth):
         return "(" + s_ + ")" if own < prec else s_
     out = []
     chunk = []
-    for e in [e for lv in levels for e in lv]:
+    for e in [e for lv in levels[from_level:] for e in lv]:
         chunk.append({"text": txt(e), "expect": [denote_cond(e, v["flavor"], v["types"]) for v in envs]})
         if len(chunk) == 40:
             out.append({"kind": "conds", "text": "", "envs": envs, "expect": None, "conds": chunk, "features": ["enumerated_conds"]})
@@ -1046,45 +1047,110 @@ def enum_cond_cases(max_depth):
     return out
 
 
+ARG_ALPHABET = ["a", '"', "\\", ",", " ", ")"]
+
+
+def enum_arg_cases(max_len, per_table=100, min_len=0):
+    """Exhaustive small enumeration of argument texts: every string over {a " \\ , blank )} up to a length, each as
+    `print(<string>)` on a line of its own (correspondence of the command pattern and of every step of the argument
+    tokeniser, whatever the order of quotes, escapes and separators; no denotation is claimed for these texts)."""
+    import itertools
+    texts = []
+    for n in range(min_len, max_len + 1):
+        for t in itertools.product(ARG_ALPHABET, repeat=n):
+            texts.append("print(" + "".join(t) + ")")
+    out = []
+    env = [{"flavor": "Linux", "types": []}]
+    for i in range(0, len(texts), per_table):
+        out.append({"kind": "args_enum", "text": "\n".join(texts[i:i + per_table]) + "\n", "envs": env, "expect": None,
+                    "conds": [], "features": ["enumerated_args"]})
+    return out
+
+
+FLOORS_PRESENT = ("feature=else_if", "feature=else", "feature=empty_branch", "feature=quoted_arg", "feature=legacy",
+                  "feature=cond_depth=2", "types=0", "types=2", "feature=first_and_last_quoted",
+                  "feature=declare_options", "declare_options=some", "feature=branches>=8")
+# argument shapes where the order of the tokeniser's steps is observable: a floor for each
+FLOORS_10 = ("feature=lone_quoted_with_escape", "feature=lone_quoted_with_escape_and_commas_or_blank_runs",
+             "feature=whole_list_quoted_commas_or_blank_runs", "feature=lone_quoted_padded", "feature=escape_in_first_arg",
+             "feature=escape_in_last_arg", "feature=escape_next_to_closing_quote", "feature=escape_next_to_opening_quote")
+
+
+def check_distribution(ctx, generated):
+    h = ctx.histogram
+    if not ctx.evaluations:
+        return
+    if ctx.distinct_nontrivial < ctx.evaluations * 0.3:
+        raise common.InfraError("degenerate distribution: %d non-trivial of %d" % (ctx.distinct_nontrivial, ctx.evaluations))
+    if h.get("model_declined", 0) > ctx.evaluations * 0.03:
+        raise common.InfraError("the model declined %d of %d cases" % (h.get("model_declined", 0), ctx.evaluations))
+    if generated >= 1000:
+        for need in FLOORS_PRESENT:
+            if not h.get(need):
+                raise common.InfraError("degenerate distribution: no case with " + need)
+        for need in FLOORS_10:
+            if h.get(need, 0) < 10:
+                raise common.InfraError("degenerate distribution: %d cases with %s (floor 10 per 1000 tables)" % (h.get(need, 0), need))
+
+
 def run(ctx):
+    """The ordinary quick portion — corpus, the small exhaustive enumerations, 3000 generated tables with the floors
+    of their distribution — always runs first and completely, whatever the budget (thorough tier, or quick tier
+    escalated because a mirrored function changed).  Only then the enlarged budget is spent, round-robin over the
+    case classes (conditions of depth 2, argument texts of length 6-7, further generated tables), so that no class
+    is starved when the time limit cuts the run short."""
     cases = corpus_cases()
     ctx.hist("corpus", len(cases))
     evaluate(ctx, cases)
-    # exhaustive small enumerations: block structures (both tiers), conditions (depth 1 quick, depth 2 thorough)
     en = enum_chain_cases()
     ctx.hist("enumerated_chains", len(en))
     evaluate(ctx, en)
-    ec = enum_cond_cases(ctx.n(1, 2))
+    ec = enum_cond_cases(1)
     ctx.hist("enumerated_cond_batches", len(ec))
-    for i in range(0, len(ec), 200):
+    evaluate(ctx, ec)
+    ea = enum_arg_cases(5)
+    ctx.hist("enumerated_arg_tables", len(ea))
+    half = (len(ea) + 1) // 2
+    generated = 0
+    for part in (None, ea[:half], None, ea[half:]):        # generated tables and enumerated argument texts take turns
         if ctx.out_of_time():
             break
-        evaluate(ctx, ec[i:i + 200])
-    n = ctx.n(3000, 100000)
-    batch = 1500
-    done = 0
-    while done < n and not ctx.out_of_time():
-        k = min(batch, n - done)
-        evaluate(ctx, [gen_case(ctx.rng) for _ in range(k)])
-        done += k
-    h = ctx.histogram
-    if ctx.evaluations:
-        if ctx.distinct_nontrivial < ctx.evaluations * 0.3:
-            raise common.InfraError("degenerate distribution: %d non-trivial of %d" % (ctx.distinct_nontrivial, ctx.evaluations))
-        if h.get("model_declined", 0) > ctx.evaluations * 0.03:
-            raise common.InfraError("the model declined %d of %d cases" % (h.get("model_declined", 0), ctx.evaluations))
-        if done >= 1000:
-            for need in ("feature=else_if", "feature=else", "feature=empty_branch", "feature=quoted_arg", "feature=legacy",
-                         "feature=cond_depth=2", "types=0", "types=2", "feature=first_and_last_quoted",
-                         "feature=declare_options", "declare_options=some", "feature=branches>=8"):
-                if not h.get(need):
-                    raise common.InfraError("degenerate distribution: no case with " + need)
-            # argument shapes where the order of the tokeniser's steps is observable: a floor for each
-            for need in ("feature=lone_quoted_with_escape", "feature=lone_quoted_with_escape_and_commas_or_blank_runs",
-                         "feature=whole_list_quoted_commas_or_blank_runs", "feature=lone_quoted_padded", "feature=escape_in_first_arg",
-                         "feature=escape_in_last_arg", "feature=escape_next_to_closing_quote", "feature=escape_next_to_opening_quote"):
-                if h.get(need, 0) < 10:
-                    raise common.InfraError("degenerate distribution: %d cases with %s (floor 10 per 1000 tables)" % (h.get(need, 0), need))
+        if part is None:
+            evaluate(ctx, [gen_case(ctx.rng) for _ in range(1500)])
+            generated += 1500
+        else:
+            evaluate(ctx, part)
+    check_distribution(ctx, generated)
+    if not ctx.n(0, 1):
+        return
+    # the enlarged budget
+    ec2 = enum_cond_cases(2, from_level=2)
+    ea2 = enum_arg_cases(7, min_len=6)
+    ctx.hist("enumerated_cond_batches", len(ec2))
+    ctx.hist("enumerated_arg_tables", len(ea2))
+
+    def chunks(xs, k):
+        for i in range(0, len(xs), k):
+            yield xs[i:i + k]
+
+    def stream(n, k):
+        done = 0
+        while done < n:
+            yield [gen_case(ctx.rng) for _ in range(min(k, n - done))]
+            done += k
+    classes = [chunks(ec2, 100), chunks(ea2, 200), stream(97000, 1500)]
+    while classes and not ctx.out_of_time():
+        for it in list(classes):
+            if ctx.out_of_time():
+                break
+            batch = next(it, None)
+            if batch is None:
+                classes.remove(it)
+                continue
+            evaluate(ctx, batch)
+            if batch and batch[0]["kind"] not in ("conds", "args_enum"):
+                generated += len(batch)
+    check_distribution(ctx, generated)
 
 
 def replay(ctx, rp):
